@@ -308,27 +308,34 @@ func (c *Collection) WriteUpdateWithXattrs(
 			}
 			return previous.Cas, err
 		}
-		var exp Exp
+		// Expiry and options of this attempt only: what an attempt that loses its CAS check asked for must not be
+		// applied by a later one, and the caller's options are not ours to modify.
+		attemptExp := exp
 		if updatedDoc.Expiry != nil {
-			exp = *updatedDoc.Expiry
+			attemptExp = *updatedDoc.Expiry
 		}
-		// update the mutate in options if necessary
+		attemptOpts := opts
 		if updatedDoc.Spec != nil {
-			opts.MacroExpansion = append(opts.MacroExpansion, updatedDoc.Spec...)
+			var withSpec sgbucket.MutateInOptions
+			if opts != nil {
+				withSpec = *opts
+			}
+			withSpec.MacroExpansion = append(append([]sgbucket.MacroExpansionSpec(nil), withSpec.MacroExpansion...), updatedDoc.Spec...)
+			attemptOpts = &withSpec
 		}
 		if updatedDoc.IsTombstone {
 			deleteBody := previous.Body != nil
-			casOut, err = c.WriteTombstoneWithXattrs(ctx, key, exp, previous.Cas, updatedDoc.Xattrs, updatedDoc.XattrsToDelete, deleteBody, opts)
+			casOut, err = c.WriteTombstoneWithXattrs(ctx, key, attemptExp, previous.Cas, updatedDoc.Xattrs, updatedDoc.XattrsToDelete, deleteBody, attemptOpts)
 		} else {
 			cas := previous.Cas
 			if previous.IsTombstone {
 				if len(updatedDoc.XattrsToDelete) > 0 {
 					return 0, sgbucket.ErrDeleteXattrOnTombstone
 				}
-				casOut, err = c.writeResurrection(key, exp, updatedDoc.Doc, updatedDoc.Xattrs, opts, previous.Cas)
+				casOut, err = c.writeResurrection(key, attemptExp, updatedDoc.Doc, updatedDoc.Xattrs, attemptOpts, previous.Cas)
 			} else {
 				// Update body and/or xattr:
-				casOut, err = c.WriteWithXattrs(ctx, key, exp, cas, updatedDoc.Doc, updatedDoc.Xattrs, updatedDoc.XattrsToDelete, opts)
+				casOut, err = c.WriteWithXattrs(ctx, key, attemptExp, cas, updatedDoc.Doc, updatedDoc.Xattrs, updatedDoc.XattrsToDelete, attemptOpts)
 			}
 		}
 
